@@ -77,3 +77,25 @@ pub fn note_toks<const K: usize>(_toks: &[Tok; K]) {}
 pub fn toks9<const K: usize>() -> [Tok; K] {
     core::array::from_fn(|_| crate::sym::tok9())
 }
+
+use unic_locale_impl::extensions::{ExtensionsMap, PrivateExtensionList, TransformExtensionList, UnicodeExtensionList};
+use unic_locale_impl::parser::ParserError as LocParserError;
+use unic_locale_impl::Locale;
+
+/// token-level twin of `unic_locale_impl::parser::parse_locale`: the same two calls in the
+/// same order on pre-split subtags (the real `pub(crate)` extension parser is reached
+/// through the cfg-guarded forwarding hook).  The three-line glue of `parse_locale`
+/// itself is covered by the byte-level harnesses.
+pub fn parse_locale_tokens<const K: usize>(toks: &[Tok; K]) -> Result<Locale, LocParserError> {
+    let arr: [&[u8]; K] = core::array::from_fn(|i| toks[i].bytes());
+    let mut it = arr.into_iter().peekable();
+    let id = LanguageIdentifier::try_from_iter(&mut it, true).map_err(|_| LocParserError::InvalidLanguage)?;
+    let extensions = ExtensionsMap::verif_try_from_iter(&mut it)?;
+    Ok(Locale { id, extensions })
+}
+
+pub fn parse_extmap_tokens<const K: usize>(toks: &[Tok; K]) -> Result<ExtensionsMap, LocParserError> {
+    let arr: [&[u8]; K] = core::array::from_fn(|i| toks[i].bytes());
+    let mut it = arr.into_iter().peekable();
+    ExtensionsMap::verif_try_from_iter(&mut it)
+}
